@@ -10,6 +10,7 @@ import (
 	"fmt"
 	"os"
 	"path/filepath"
+	"slices"
 	"sort"
 	"strings"
 	"sync"
@@ -69,6 +70,7 @@ func TestVerif_C16_StoreModel(t *testing.T) {
 		var tags []string
 		var log []string
 		refused, restarts, collisions := 0, 0, 0
+		sameSize := 0
 		now := time.Now()
 		mkTok := func(name string, tk c16Tok) *Stateful {
 			e := tk.expires
@@ -90,7 +92,7 @@ func TestVerif_C16_StoreModel(t *testing.T) {
 		}
 		n := rapid.IntRange(2, 25).Draw(t, "nops")
 		for i := 0; i < n; i++ {
-			op := rapid.SampledFrom([]string{"create", "create", "create", "update", "update", "delete", "delete", "expire", "external", "restart", "get"}).Draw(t, "op")
+			op := rapid.SampledFrom([]string{"create", "create", "create", "update", "update", "delete", "delete", "expire", "external", "restart", "get", "same-size-edit"}).Draw(t, "op")
 			var names []string
 			for k := range model {
 				names = append(names, k)
@@ -165,6 +167,45 @@ func TestVerif_C16_StoreModel(t *testing.T) {
 						t.Fatalf("refused update reported %v, want a tag mismatch", err)
 					}
 				}
+			case "same-size-edit":
+				// two successive versions of the same size, written at least 15 ms apart: they differ in modification
+				// time only, "which is how versions are told apart" -- the tag has to change, and the old one must not
+				// authorise a further edit
+				if len(names) == 0 {
+					continue
+				}
+				name := rapid.SampledFrom(names).Draw(t, "name")
+				tk := model[name]
+				before := curTag()
+				flip := map[string]string{"present": "message", "message": "present"}
+				np := append([]string(nil), tk.perms...)
+				changed := false
+				for k, p := range np {
+					if f, ok := flip[p]; ok && !slices.Contains(np, f) {
+						np[k] = f
+						changed = true
+						break
+					}
+				}
+				if !changed {
+					continue
+				}
+				time.Sleep(15 * time.Millisecond)
+				tk2 := tk
+				tk2.perms = np
+				if _, err := Update(mkTok(name, tk2), before); err != nil {
+					t.Fatalf("same-size edit of %s with the current tag refused: %v", name, err)
+				}
+				model[name] = tk2
+				after := curTag()
+				log = append(log, fmt.Sprintf("same-size edit of %s: tag %s -> %s", name, before, after))
+				if after == before {
+					t.Fatalf("C16: two versions of the token file written more than 15 ms apart (same size) carry the same tag %s: an editor holding it cannot see the other's change [%s]", after, strings.Join(log, "; "))
+				}
+				if _, err := Update(mkTok(name, tk), before); err == nil {
+					t.Fatalf("C16: an edit conditioned on tag %s succeeded although the file had been rewritten (same size, later) since that tag was read [%s]", before, strings.Join(log, "; "))
+				}
+				sameSize++
 			case "delete":
 				name := pick()
 				cur := curTag()
@@ -307,6 +348,7 @@ func TestVerif_C16_StoreModel(t *testing.T) {
 		c16Rec.Case(refused > 0 && restarts > 0, strings.Join(log, ";"), map[string]any{"ops": log})
 		c16Rec.ClassN("refused_conditional_ops", refused)
 		c16Rec.ClassN("restarts", restarts)
+		c16Rec.ClassN("same_size_edits_with_later_mtime", sameSize)
 		c16Rec.ClassN("excluded_indistinguishable_versions", collisions)
 	})
 }
